@@ -130,4 +130,11 @@ Calls3 == {<<"authorize">>, <<"run", "authorize">>, <<"authorize", "authorize", 
            <<"run", "run", "run", "authorize">>,
            <<"snapshot", "authorize">>, <<"authorize", "snapshot", "authorize">>, <<"run", "snapshot", "run", "authorize">>,
            <<"query", "snapshot", "snapshot", "authorize">>}
+\* thorough tier: more shapes (longer chains, two wide passes), every limit around every level, longer call sequences
+LevelsBig == LevelsSmall \cup {<<1>>, <<2, 3, 4, 5, 6, 7, 8, 9>>, <<4, 20>>, <<10, 59>>, <<10, 11, 12>>}
+FactLimsBig == {0, 1, 2, 3, 4, 5, 6, 7, 8, 9, 10, 11, 12, 13, 19, 20, 21, 58, 59, 60, 1000}
+IterLimsBig == {0, 1, 2, 3, 4, 5, 6, 7, 8, 1000}
+Calls5 == Calls3 \cup {<<"authorize", "run", "query", "query_all", "authorize">>, <<"run", "snapshot", "authorize", "snapshot", "authorize">>,
+                       <<"query_all", "query_all">>, <<"query", "run">>, <<"snapshot", "snapshot", "run">>,
+                       <<"authorize", "snapshot", "query", "snapshot", "query_all">>}
 =============================================================================
